@@ -41,6 +41,11 @@ def missingVariables (m : Model) : List Name :=
   let known := m.stateNames ++ m.paramNames ++ m.assignNames ++ timeNames
   sortNames ((mentioned m).filter (fun x => !known.contains x))
 
+/-- the sub-model made of the atoms whose names satisfy `keep` (`Component.to_ode()`, `ode - C`) -/
+def restrict (m : Model) (keep : Name → Bool) : Model :=
+  { states := m.states.filter (fun a => keep a.1), params := m.params.filter (fun a => keep a.1),
+    inters := m.inters.filter (fun a => keep a.1), derivs := m.derivs.filter (fun a => keep a.1) }
+
 /-- The slot layout the index functions of a generated module report. -/
 def layout (m : Model) (π : DepOrder) : Option Layout := do
   let st ← sortedStates m π
